@@ -6,6 +6,7 @@ import DdnnfVerif.Model.Features
 import DdnnfVerif.Model.Enum
 import DdnnfVerif.Model.Optimal
 import DdnnfVerif.Model.Cnf
+import DdnnfVerif.Model.Concurrency
 import DdnnfVerif.Proofs.PDLeaf
 namespace Ddnnf
 
@@ -29,6 +30,48 @@ def splitBar (ws : List String) : List String × List String :=
 def valsOf (vs : List Int) : Nat → Int := fun v => if v ≥ 1 then vs.getD (v - 1) 0 else 0
 def fmtOC (full : Bool) (o : OC) : String :=
   if full then s!"{o.value}:{fmtInts (sortCfg o.cfg)}" else toString o.value
+
+def parseStreamEv (w : String) : Option Stream.Ev :=
+  match w.splitOn ":" with
+  | ["park"] => some .park
+  | ["unpark"] => some .unpark
+  | [k, v] =>
+      match v.toNat? with
+      | none => none
+      | some id =>
+        match k with
+        | "push" => some (.push id) | "pull" => some (.pull id) | "send" => some (.send id)
+        | "recv" => some (.recv id) | "print" => some (.print id) | "exit" => some (.stop id)
+        | "eof" => some (.stop id) | "done" => some (.done id) | "unpark" => some .unpark
+        | "park" => some .park
+        | _ => none
+  | _ => none
+
+/-- replay of a trace of the real stream loop through the state machine -/
+def traceAnswer (ws : List String) : String :=
+  let evs := ws.filterMap parseStreamEv
+  if evs.length != ws.length then "unparsed-event"
+  else match Stream.run {} evs with
+    | some s => s!"ok accepted={s.nextId} printed={s.outputId} inorder={decide (s.printed = List.range s.outputId)} finished={s.finished}"
+    | none => s!"rejected at {(Stream.firstRejected {} evs 0).getD 0}"
+
+def parseLockEv (w : String) : List EnumLock.Ev :=
+  match w.splitOn ":" with
+  | ["r", t] => let t := t.toNat?.getD 0; [.acquire t, .read t]
+  | ["w", t] => let t := t.toNat?.getD 0; [.write t, .release t]
+  | _ => []
+
+/-- `q enumlock L k0,k1,.. r:0 w:0 r:1 …` : replay of observed cursor-section events under the lock discipline -/
+def enumLockAnswer (ws : List String) : String :=
+  match ws with
+  | l :: ks :: evs =>
+      let ms := List.range (l.toNat?.getD 0)
+      let amounts := (ks.splitOn ",").map (fun k => k.toNat?.getD 0)
+      let amount := fun t => amounts.getD t 0
+      match EnumLock.runWith (EnumLock.stepLocked ms amount) {} (evs.flatMap parseLockEv) with
+      | some s => ";".intercalate (s.pages.map fun (t, p) => s!"{t}:" ++ ",".intercalate (p.map toString))
+      | none => "rejected-by-lock-discipline"
+  | _ => "bad-args"
 
 def circuitLine (nodes : List NType) (n : Nat) : String :=
   -- hypotheses of the theorems: WF (wfB_sound) and LitUnique (litUniqueB_sound); the truth-table part of
@@ -65,6 +108,12 @@ def answer (nodes : List NType) (n : Nat) (kind : String) (args : List String) :
   | "tocnf" =>
       let (nv, cls) := toCnf nodes n
       s!"{nv} {cls.length} | " ++ " ; ".intercalate (cls.map fmtInts)
+  | "trace" => traceAnswer args
+  | "enumlock" => enumLockAnswer args
+  | "fmtline" =>
+      match args with
+      | ans :: q => (QueryFile.fmtLine (parseIntsD q) ans).replace "\n" "\\n"
+      | [] => "bad-args"
   | "enumok" => toString (enumOkB nodes)
   | "models" => fmtCfgs (models nodes (rootIx nodes))
   | _ => "unknown-query"
